@@ -39,7 +39,8 @@ impl<'s, 'a: 's> Cursor<'a> {
 
     pub fn window(&mut self, size: usize) -> Result<()> {
         if self.orig.is_none() {
-            if self.len() >= size {
+            // `len()` saturates to 0 when `pos` is past the end, which a zero `size` would pass
+            if self.pos <= self.buf.len() && self.len() >= size {
                 self.orig = Some(self.buf);
                 self.buf = unsafe { self.buf.get_unchecked(..self.pos + size) };
                 Ok(())
@@ -128,7 +129,8 @@ impl<'s, 'a: 's> Cursor<'a> {
     }
 
     pub fn slice(&'s mut self, size: usize) -> Result<&'a [u8]> {
-        if self.len() >= size {
+        // `len()` saturates to 0 when `pos` is past the end, which a zero `size` would pass
+        if self.pos <= self.buf.len() && self.len() >= size {
             let pos = self.pos;
             self.pos += size;
             Ok(unsafe { self.buf.get_unchecked(pos..pos + size) })
